@@ -55,7 +55,7 @@ def reference_decode(codec, comp):
 class C16(Check):
     ID = 'C16'
     LEVEL = 'fault_enumeration'
-    BUDGET = {'quick': 30, 'thorough': 240}
+    BUDGET = {'quick': 75, 'thorough': 240}
     RULE = ('case = (codec, chunk list given as (kind, sizes, data seed), list of re-chunkings of the compressed bytes, '
             'set of truncation points); fault model = the compressed stream ends at byte t, for EVERY t < len when the '
             'compressed stream is <= 512 B (quick) / 2 KiB (thorough), 40 sampled t otherwise, each fed whole and cut in two; '
@@ -71,7 +71,7 @@ class C16(Check):
     _ops = {}
 
     def generate(self, rng, tier, shard, nshards):
-        n = 240 if tier == 'quick' else 10 ** 7
+        n = 200 if tier == 'quick' else 10 ** 7
         big = 3 * 131072 + 17 if tier == 'quick' else 1 << 20
         for k in range(n):
             codec = ('gzip', 'zstd')[k % 2]
@@ -97,17 +97,17 @@ class C16(Check):
             kind = rng.choice(['rand', 'zeros', 'text', 'mixed'])
             if k < 8:
                 kind = ('rand', 'zeros')[(k // 2) % 2]
-            if k % 60 == 30:
+            if k % 60 == 6:
                 # well beyond 4 MiB of input, incompressible and compressible, a few large chunks
                 sizes = [rng.choice([1 << 21, (1 << 21) + 5, 3 << 20]) for _ in range(rng.randint(2, 4))]
                 kind = ('rand', 'text', 'zeros')[(k // 60) % 3]
                 codec = ('gzip', 'zstd')[(k // 180) % 2]
-            elif k % 12 == 11:
+            elif k % 24 == 11:
                 # several MiB of highly compressible data: one compressed chunk expands to far more than any
                 # internal buffer (decompressors that bound their output per call must still drain everything)
                 sizes = [rng.choice([1 << 20, (1 << 20) + 13, 3 << 19]) for _ in range(rng.randint(2, 4))]
                 kind = ('zeros', 'text')[(k // 24) % 2]
-                codec = ('gzip', 'zstd')[(k // 12) % 2]
+                codec = ('gzip', 'zstd')[(k // 48) % 2]
             if k % 20 == 2:
                 # the COMPRESSED stream is exactly T bytes long, T a buffer size a streaming wrapper may re-block on
                 # (zstd's recommended input / output sizes, powers of two) or a multiple: the last byte of the frame is
